@@ -84,10 +84,14 @@ func (u *Unit) walkProbesP(label string, v *SV, t types.Type, depth int, out *[]
 
 // GetValues runs z3-new on the obligation's VC and evaluates the probes. Returns label -> value text.
 func (o *Obligation) GetValues(probes []probe, timeoutS int, file string) (map[string]string, string, error) {
+	return o.GetValuesFor(o.VC(), probes, timeoutS, file)
+}
+
+func (o *Obligation) GetValuesFor(vc []*Term, probes []probe, timeoutS int, file string) (map[string]string, string, error) {
 	u := o.Unit
 	// bind each probe to a fresh constant so that get-value output is easy to parse
 	var as []*Term
-	as = append(as, o.VC()...)
+	as = append(as, vc...)
 	names := make([]string, len(probes))
 	for i, p := range probes {
 		k := u.c.Const(fmt.Sprintf("probe!%d", i), p.T.Sort)
